@@ -103,16 +103,21 @@ def spec_int(o):
 
 
 def spec_float_like(o, tname, what):
-    """Float / Complex: an exact float (complex) is stored as is; anything else goes through the float (complex)
-    conversion protocol exactly once and the result is a new object of exact type float (complex)."""
+    """Float / Complex: an exact float (complex) is stored as is; an instance of a subclass is replaced by an exact
+    float (complex) carrying the same number, without running any code of its type; anything else goes through the float
+    (complex) conversion protocol exactly once and the result is a new object of exact type float (complex)."""
     E = o.exact(o.value, tname)
+    sub = z3.And(o.inst(o.value, tname), z3.Not(E))
+    other = z3.Not(o.inst(o.value, tname))
     c = o.conv
     out = _outcome_partition(o)
     out.append(("spec:exact-%s-stored-as-is-without-conversion" % tname, z3.Implies(E, z3.And(o.accepted, o.same(o.result, o.value), B(len(c) == 0)))))
+    out.append(("spec:subclass-instance-replaced-by-an-exact-%s-of-the-same-number-without-conversion" % tname,
+                z3.Implies(sub, z3.And(o.accepted, o.same_number(o.result, o.value), B(len(c) == 0)))))
     out.append(("spec:otherwise-the-%s-protocol-of-the-value-is-consulted-exactly-once" % tname,
-                z3.Implies(z3.Not(E), z3.And(B(len(c) == 1 and c[0].what == what), o.same(c[0].arg, o.value) if c else F))))
+                z3.Implies(other, z3.And(B(len(c) == 1 and c[0].what == what), o.same(c[0].arg, o.value) if c else F))))
     if c and c[0].ok:
-        out.append(("spec:accepted-with-the-converted-number", z3.Implies(z3.Not(E), z3.And(o.accepted, o.carries(o.result, c[0])))))
+        out.append(("spec:accepted-with-the-converted-number", z3.Implies(other, z3.And(o.accepted, o.carries(o.result, c[0])))))
     out.append(("spec:result-has-exact-type-%s" % tname, z3.Implies(o.accepted, o.exact(o.result, tname))))
     out += _conversion_errors(o)
     if not _failed(o):
@@ -187,7 +192,7 @@ def spec_callable(o, allow_none):
     c = o.conv
     out = _outcome_partition(o)
     is_none = o.is_none(o.value)
-    callable_ = o.callable(o.value)
+    callable_ = z3.And(z3.Not(is_none), o.callable(o.value))       # None is not callable
     out.append(("spec:accepts-iff-callable-or-allowed-None", o.accepted == z3.Or(z3.And(is_none, allow_none), callable_)))
     out.append(("spec:stores-the-value-itself", z3.Implies(o.accepted, o.same(o.result, o.value))))
     out.append(("spec:rejection-is-TraitError", z3.Implies(z3.Not(o.accepted), o.trait_error)))
